@@ -1092,7 +1092,7 @@ namespace
         auto valswtch = runtime.context_active().get_variable(d_switch::magic);
         if (!valswtch.has_value() || !valswtch->is<t_switch>())
         {
-            runtime.__logmsg(err::MagicVariableTypeMissmatch(runtime.context_active().current_frame().diag_info_from_position(), d_switch::magic, t_switch(), valswtch->type()));
+            runtime.__logmsg(err::MagicVariableTypeMissmatch(runtime.context_active().current_frame().diag_info_from_position(), d_switch::magic, t_switch(), valswtch.has_value() ? valswtch->type() : sqf::runtime::type(t_nothing())));
             return {};
         }
         auto swtch = valswtch->data<d_switch>();
@@ -1108,7 +1108,7 @@ namespace
         auto valswtch = runtime.context_active().get_variable(d_switch::magic);
         if (!valswtch.has_value() || !valswtch->is<t_switch>())
         {
-            runtime.__logmsg(err::MagicVariableTypeMissmatch(runtime.context_active().current_frame().diag_info_from_position(), d_switch::magic, t_switch(), valswtch->type()));
+            runtime.__logmsg(err::MagicVariableTypeMissmatch(runtime.context_active().current_frame().diag_info_from_position(), d_switch::magic, t_switch(), valswtch.has_value() ? valswtch->type() : sqf::runtime::type(t_nothing())));
             return {};
         }
         auto swtch = valswtch->data<d_switch>();
@@ -1123,7 +1123,7 @@ namespace
         auto valswtch = runtime.context_active().get_variable(d_switch::magic);
         if (!valswtch.has_value() || !valswtch->is<t_switch>())
         {
-            runtime.__logmsg(err::MagicVariableTypeMissmatch(runtime.context_active().current_frame().diag_info_from_position(), d_switch::magic, t_switch(), valswtch->type()));
+            runtime.__logmsg(err::MagicVariableTypeMissmatch(runtime.context_active().current_frame().diag_info_from_position(), d_switch::magic, t_switch(), valswtch.has_value() ? valswtch->type() : sqf::runtime::type(t_nothing())));
             return {};
         }
         auto swtch = valswtch->data<d_switch>();
